@@ -220,12 +220,14 @@ namespace Givaro {
             P.resize(0);
             return P;
         }
-        P.resize((size_t)dQ.value());
+        // P may be Q: Q[dQ] must still exist when it is read, so P is only shrunk at the end
+        if (P.size() < (size_t)dQ.value()) P.resize((size_t)dQ.value());
         Type_t cste; _domain.assign(cste, _domain.zero);
         for (int i=0; dQ>i; ++i) {
             _domain.add(cste, cste, _domain.one);
             _domain.mul(P[(size_t)i], Q[(size_t)i+1], cste);
         }
+        P.resize((size_t)dQ.value());
         return P;
     }
 
@@ -372,6 +374,7 @@ namespace Givaro {
     template <class Domain>
     inline typename Poly1Dom<Domain,Dense>::Rep& Poly1Dom<Domain,Dense>::reverse( Rep& P, const Rep& Q) const {
 
+        if (&P == &Q) return reversein(P); // reverse_copy requires distinct ranges
         P.resize(Q.size());
         std::reverse_copy(Q.begin(), Q.end(), P.begin());
         this->setDegree(P);
